@@ -102,6 +102,14 @@ func c13Body(r *Run) {
 	for i := 1; i <= pubFail; i++ {
 		poison.FailAt[i] = PubErr
 	}
+	if pubFail > 0 && t.Chance(1, 3) {
+		// the poison publisher does not return an error, it panics (with a string): still a failed publish, the message
+		// must not be reported as handled — the panic may pass on or come back as an error
+		for i := 1; i <= pubFail; i++ {
+			poison.FailAt[i] = PubPanic
+		}
+		r.Describe("the failing poison publish calls panic instead of returning an error")
+	}
 	var mw message.HandlerMiddleware
 	var err error
 	filterCalls := 0
@@ -281,6 +289,10 @@ func c13Body(r *Run) {
 			var rerr error
 			pv, pan := Call(func() { outs, rerr = wrapped(m) })
 			if pan {
+				if n := len(poison.Calls); n > before && poison.Calls[n-1].Fault == PubPanic {
+					r.Probe("poison-publisher-panic-passed-on")
+					continue
+				}
 				r.Fail("C13.R0", "PoisonQueue panicked", "%v", pv)
 				return
 			}
